@@ -38,7 +38,7 @@ for c in claims["checks"]:
      "replay_cmd_template": "./replay {path}",
      "engine": "govc",
      "level_claimed": {"category": "proof", "text": c["text"], "design_ref": c.get("design_ref", "DESIGN.md section 11")},
-     "level_note": c["note"],
+     "level_note": c["note"] + " The functional clauses of the assumed library contracts (spec/stdlib.contracts) are additionally run against the real standard library on every check (BOUNDED, evidence key coverage.assumption_validation, never counted as proved); a refuted assumption is reported as an engine error (exit 2), not as a property verdict.",
      "technique": c.get("technique", "contract-based deductive verification: pre/postconditions, loop invariants and variants on the real functions; VCs from go/ssa; SMT (z3, cvc5)"),
     })
 for p in props:
